@@ -1,4 +1,6 @@
-(* K7/C01 -- model of the ORCHESTRATION of main.format_code (pyrefact/main.py:159-265) and of
+(* K7/C01 -- model of the ORCHESTRATION of main.format_code / main._format_code (pyrefact/main.py, after repair 9438482:
+   format_code is a thin wrapper that terminates an unterminated text, runs _format_code = the former body, and removes
+   one trailing LF again; line numbers below refer to the former body) and of
    main._multi_run_fixes (pyrefact/main.py:66-156).  Only the control flow is modelled: which stage
    runs, in which order, on which text, under which option / guard; the stages themselves are
    parameters (a stage is a function  src -> src  that may depend on the call context).
@@ -153,6 +155,23 @@ Section Pipeline.
   Definition reachable_for (o : opts) (s : src) : list kind :=
     let orig := fst (prepass s) in
     reachable (o_keep o) (negb (valid orig)) (Nat.eqb (min_indent orig) 0).
+
+  (* ---- main.format_code, the wrapper (repair 9438482):
+            if source and source[-1] not in "\r\n":
+                formatted = _format_code(source + "\n", ...)
+                return formatted[:-1] if formatted.endswith("\n") else formatted
+            return _format_code(source, ...)
+          format_code_traced above is _format_code. *)
+  Variable needs_nl : src -> bool.             (* non-empty and last character not CR / LF *)
+  Variable add_nl : src -> src.                (* source + "\n" *)
+  Variable strip_nl : src -> src.              (* drop one trailing LF if there is one *)
+
+  Definition inner_input (s : src) : src := if needs_nl s then add_nl s else s.
+  Definition format_code_outer_traced (o : opts) (s : src) : state :=
+    let r := format_code_traced o (inner_input s) in
+    if needs_nl s then (strip_nl (fst r), snd r) else r.
+  Definition format_code_outer (o : opts) (s : src) : src := fst (format_code_outer_traced o s).
+  Definition format_code_outer_trace (o : opts) (s : src) : list kind := snd (format_code_outer_traced o s).
 End Pipeline.
 
 (* ---- correspondence plumbing: texts = small nats, preserve sets = bit masks; stages / guards = tables ---- *)
@@ -195,6 +214,8 @@ Record pcase : Type := mkPCase {
   pc_skip : list nat; pc_blank : list nat; pc_invalid : list nat;   (* the text ids on which the guard is true / false *)
   pc_level : list (nat * nat);                 (* indentation_level, sparse, default 0 *)
   pc_surface : list (nat * nat);               (* module surface of a text as a bit mask, sparse, default 0 *)
+  pc_needsnl : list nat;                       (* unterminated non-empty texts *)
+  pc_addnl : list (nat * nat); pc_stripnl : list (nat * nat);   (* text + LF; text minus one trailing LF (sparse, identity elsewhere) *)
   pc_result : nat; pc_trace : list tok;        (* observed on the real format_code (full passes abbreviated) *)
   pc_ctx : list nat }.                         (* observed [preserve mask; indent; maxlen; orig] or [] on early return *)
 
@@ -218,11 +239,15 @@ Definition pcase_model (c : pcase) : nat * list kind * list nat :=
   let stage := script_stage (pc_nu c) (pc_script c) in
   let sp := fun p s => Nat.lor p (lookup s (pc_surface c) 0) in
   let o := mkOpts nat (pc_safe c) (pc_keep c) (pc_p0 c) (pc_maxlen c) in
-  let r := format_code_traced nat nat Nat.eqb stage (inl (pc_skip c)) (inl (pc_blank c)) valid level sp
-             (pc_nmulti c) (pc_maxpasses c) o (pc_input c) in
-  let cx := match exit_of nat nat stage (inl (pc_skip c)) (inl (pc_blank c)) valid (pc_input c) with
+  let needs := inl (pc_needsnl c) in
+  let addnl := fun s => lookup s (pc_addnl c) s in
+  let stripnl := fun s => lookup s (pc_stripnl c) s in
+  let r := format_code_outer_traced nat nat Nat.eqb stage (inl (pc_skip c)) (inl (pc_blank c)) valid level sp
+             (pc_nmulti c) (pc_maxpasses c) needs addnl stripnl o (pc_input c) in
+  let inner := inner_input nat needs addnl (pc_input c) in
+  let cx := match exit_of nat nat stage (inl (pc_skip c)) (inl (pc_blank c)) valid inner with
             | NoExit =>
-                let st := prepass nat nat stage (pc_input c) in
+                let st := prepass nat nat stage inner in
                 let x := the_ctx nat nat valid level sp o (fst st) (fst (dedented nat nat stage valid st)) in
                 [c_preserve _ _ x; c_indent _ _ x; c_maxlen _ _ x; c_orig _ _ x]
             | _ => []
